@@ -35,6 +35,7 @@ CONSTANTS Scns,        \* set of scenario records (same shape as the traces' scn
           FaultKinds,  \* subset of {"kill", "nodekill", "sbatch", "squeue"}: which injected faults are explored
           MaxFaults,   \* at most this many injected faults per behaviour
           UserCancels, \* TRUE: the user may run cancel-jobs once, at any moment
+          EagerUser,   \* TRUE: the user runs try-submit-jobs on the login node at any moment (not only when all is quiet)
           Log,         \* TRUE: keep path/elog (cover and simulation configurations; hidden by VIEW)
           Fixed        \* set of findings repaired in the modelled tree, e.g. {"F1"}; the pinned defects stay expressible
 
@@ -511,14 +512,47 @@ NodeTry(s) ==
 \* ---------------------------------------------------------------- injected faults (FaultKinds, MaxFaults)
 HoldsRole(s) == IsSubmitterKind(P(s).kind) /\ P(s).pc \notin {"promote", "idle", "exit"}
 
-\* SIGKILL of a submitter-type process between two of its visible operations: it disappears; whatever it wrote stays
-\* (submitter field, submitter.lock, batches handed to the HPC but not yet persisted)
+\* The real process is only ever parked at a *visible* operation (a lock, an external command): the silent steps of the
+\* model (marker touch / removal, group iteration, an empty batch attempt, a poll or persist with nothing to do, a
+\* cancel pass without appends) happen on the way to that park point.  So a kill falls right before a visible operation,
+\* after the silent steps that precede it.
+NextBatchOf(p) ==
+  LET g == GroupRec(p.gi)
+      PP == [rem |-> p.ljs.rem, est |-> S.est, tb |-> g.tb, tryadd |-> g.tryadd, cap |-> g.cap, size |-> g.size,
+             repaired |-> Repaired]
+  IN MakeBatch(PP, p.avail)
+CancelPassAppends(p) ==
+  LET results == p.got \o p.pending
+      failed == {results[k][1] : k \in {x \in 1..Len(results) : RFailed(results[x])}}
+  IN \E j \in J : p.ljs.st[j] = 0 /\ p.ljs.rem[j] # {} /\ S.flag[j] /\ p.ljs.rem[j] \cap failed # {}
+SilentNext(s) ==
+  LET p == P(s) IN
+  \/ p.pc \in {"marker", "group", "unmark"}
+  \/ (p.pc = "poll" /\ p.ljs.ids = {})
+  \/ (p.pc = "batch" /\ (QueueFull(p) \/ p.avail = <<>> \/ NextBatchOf(p).batch = <<>>))
+  \/ (p.pc = "persist" /\ ~(p.newly # {} \/ p.subm # <<>> \/ p.blkd # {} \/ p.ljs.ids # p.act))
+  \/ (p.pc = "cancel" /\ ~CancelPassAppends(p))
+
+\* SIGKILL of a submitter-type process at the park point of its next visible operation: it disappears; whatever it wrote
+\* stays (submitter field, submitter.lock, batches handed to the HPC but not yet persisted -- and, when it is killed at its
+\* sbatch call, the files of the batch it was about to hand over)
 Kill(s) ==
-  /\ CanFault("kill") /\ IsSubmitterKind(P(s).kind)
+  /\ CanFault("kill") /\ IsSubmitterKind(P(s).kind) /\ ~SilentNext(s)
   /\ nfault' = nfault + 1
   /\ procs' = Gone(s, procs)
-  /\ Feed(<<"Kill", s, 0>>, <<[e |-> "kill", pid |-> P(s).pid]>>)
-  /\ UNCHANGED <<S, cfg, js, marker, bfile, hs, nodeFile, processed, jp, npid, nuser, ended, ncancel>>
+  /\ LET p == P(s)
+         atSbatch == p.pc = "batch" /\ p.lbidx \in B
+         r == IF atSbatch THEN NextBatchOf(p) ELSE [batch |-> <<>>]
+         b == p.lbidx
+         hb == [k \in 1..Len(r.batch) |-> SeqOf(p.ljs.rem[r.batch[k]])]
+     IN IF atSbatch
+          THEN /\ bfile' = [bfile EXCEPT ![b] = [jobs |-> r.batch, hb |-> hb]]
+               /\ Feed(<<"Kill", s, 0>>, <<[e |-> "cfgbatch", b |-> b, rewrite |-> (bfile[b] # NoFile), jobs |-> r.batch, hb |-> hb,
+                                            rows |-> SeqOf(NamesOnDisk(nodeFile, processed))],
+                                          [e |-> "kill", pid |-> p.pid]>>)
+          ELSE /\ UNCHANGED bfile
+               /\ Feed(<<"Kill", s, 0>>, <<[e |-> "kill", pid |-> p.pid]>>)
+  /\ UNCHANGED <<S, cfg, js, marker, hs, nodeFile, processed, jp, npid, nuser, ended, ncancel>>
 
 \* the node of a running batch disappears (killed, walltime): runner, its nested try-submit-jobs and its job processes die;
 \* rows already appended stay
@@ -630,7 +664,7 @@ Quiescent == /\ \A s \in Slots : P(s).kind = "none"
 
 \* the documented recovery: try-submit-jobs (also what show-status offers) when nothing is active
 UserTry ==
-  /\ Quiescent /\ ~cfg.complete /\ nuser < MaxUser /\ ~ended
+  /\ (Quiescent \/ (EagerUser /\ P(LOGIN).kind = "none")) /\ ~cfg.complete /\ nuser < MaxUser /\ ~ended
   /\ npid' = npid + 1 /\ nuser' = nuser + 1
   /\ Set(LOGIN, [Idle EXCEPT !.kind = "try-submit-jobs", !.pc = "promote", !.pid = npid + 1])
   /\ Feed(<<"UserTry", 0, 0>>, <<EvProc(npid + 1, "try-submit-jobs", FALSE, -1)>>)
@@ -640,7 +674,9 @@ UserTry ==
 End ==
   /\ Quiescent /\ ~ended /\ (cfg.complete \/ nuser >= MaxUser)
   /\ ended' = TRUE
-  /\ Feed(<<"End", 0, 0>>, <<[e |-> "end", full |-> TRUE]>>)
+  \* (with an eager user the bounded number of rounds may have been spent while they were refused: an incomplete end is
+  \*  then the bound's doing, not a verdict about recovery)
+  /\ Feed(<<"End", 0, 0>>, <<[e |-> "end", full |-> (cfg.complete \/ ~EagerUser)]>>)
   /\ UNCHANGED <<S, cfg, js, marker, bfile, hs, nodeFile, processed, jp, procs, npid, nuser, nfault, ncancel>>
 
 SubStep(s) == \/ Promote(s) \/ Poll(s) \/ Glob(s) \/ (\E b \in B : Move(s, b)) \/ CancelPass(s) \/ MarkerTouch(s)
